@@ -1,7 +1,8 @@
 """C07 - backend vector and matrix-vector primitives equal their algebraic definitions."""
 import json, hashlib
 
-PARTS = {1: "builtin scalar/complex", 2: "builtin blocks + mixed scalar/block", 3: "block_crs, eigen, hybrid"}
+PARTS = {1: "builtin scalar/complex", 2: "builtin blocks + mixed scalar/block", 3: "block_crs, eigen, hybrid",
+         4: "mixed scalar/block with different matrix and vector precision"}
 
 def sig(rec, clauses):
     return {"op": rec.get("op"), "backend": rec.get("be"), "type": rec.get("ty"), "mixed": rec.get("mixed", "")}
@@ -20,16 +21,37 @@ def run(c):
                      "rounding behaviour on non-integer data is not examined",
                      "TLC, the CommunityModules Json reader, g++/libgomp, Eigen are trusted"]
     th = c.thorough()
+    import sys, os
+    sys.path.insert(0, os.path.join(os.path.dirname(os.path.abspath(__file__)), "..", "lib"))
+    from vcheck import InfraError
+
+    def builds():
+        # parts 1-3 must build (else: infrastructure error). Part 4 instantiates the scalar<->block overloads with a matrix
+        # precision different from the vector precision (supported: tutorial/5.Nullspace/nullspace_hybrid.cpp). If the rest
+        # builds and only these instantiations do not compile any more, the library lost a supported use of the primitives.
+        def opt4():
+            try:
+                return c.build("record_prims4", ["record_prims.cpp"], flags=["-DPART=4"])
+            except InfraError as e:
+                return e
+        r = c.parallel([lambda: c.build_many([dict(name="record_prims%d" % p, sources=["record_prims.cpp"], flags=["-DPART=%d" % p]) for p in (1, 2, 3)]), opt4])
+        bins = {1: r[0][0], 2: r[0][1], 3: r[0][2]}
+        if isinstance(r[1], Exception):
+            c.violation("mixed scalar/block primitives with different matrix and vector precision no longer compile (they do on the reference tree)",
+                        {"compiler": str(r[1])[-3000:]}, {"stage": "compile", "op": "spmv/residual/vmul", "backend": "builtin", "type": "mixed precision", "mixed": "xy"})
+        else:
+            bins[4] = r[1]
+        return bins
     _, bins = c.parallel([
         lambda: c.tlc_model("VecPrimsModel", constants={"NMax": 3, "BSMax": 4 if th else 3}, workers=10),
-        lambda: c.build_many([dict(name="record_prims%d" % p, sources=["record_prims.cpp"], flags=["-DPART=%d" % p]) for p in PARTS])])
-    runs = [(p, nt) for p in PARTS for nt in (1, 4)]
+        builds])
+    runs = [(p, nt) for p in sorted(bins) for nt in (1, 4)]
     if th:
-        runs += [(p, nt) for p in PARTS for nt in (2, 7)]
+        runs += [(p, nt) for p in sorted(bins) for nt in (2, 7)]
 
     def one(pn):
         p, nt = pn
-        return p, nt, c.record(bins[p - 1], [], env={"OMP_NUM_THREADS": nt, "OMP_WAIT_POLICY": "passive"}, out=c.path("prims-%d-%d.ndjson" % (p, nt)))
+        return p, nt, c.record(bins[p], [], env={"OMP_NUM_THREADS": nt, "OMP_WAIT_POLICY": "passive"}, out=c.path("prims-%d-%d.ndjson" % (p, nt)))
     traces = c.parallel([lambda pn=pn: one(pn) for pn in runs], max_workers=6)
 
     def val(t):
